@@ -22,7 +22,7 @@ from bfsa.guard import unsnap
 from bfsa.heap import PathDead, Unsupported
 from bfsa.load import AnalysisError
 from bfsa.symexec import Exec
-from bfsa.terms import C, NONE, Term, cval, is_const, mk, show, sym
+from bfsa.terms import C, NONE, Term, cval, is_const, mk, show, sym, xor_canon
 
 AESQ = "register_crypto_plugin.pyaes.aes"
 BFQ = "register_crypto_plugin.pyaes.blockfeeder"
@@ -31,50 +31,37 @@ UTQ = "register_crypto_plugin.pyaes.util"
 
 # ------------------------------------------------------------------------------------------------ term algebra
 def X(*ts: Term) -> Term:
-    """canonical XOR: flattened, constants folded, equal operands cancelled, operands ordered by term id"""
-    c = 0
-    leaves: Dict[int, Term] = {}
-    stack = list(ts)
-    while stack:
-        t = unsnap(stack.pop())
-        if t.op == "xor":
-            stack.extend(t.args[0])
-        elif t.op == "bin" and t.args[0] == "BitXor":
-            stack.extend([t.args[1], t.args[2]])
-        elif is_const(t) and isinstance(cval(t), int) and not isinstance(cval(t), bool):
-            c ^= cval(t)
-        else:
-            t = canon(t)
-            if t.op == "xor":
-                stack.extend(t.args[0])
-            elif t.uid in leaves:
-                del leaves[t.uid]
-            else:
-                leaves[t.uid] = t
-    ls = [leaves[k] for k in sorted(leaves)]
-    if c:
-        ls.append(C(c))
-    if not ls:
-        return C(0)
-    if len(ls) == 1:
-        return ls[0]
-    return mk("xor", tuple(ls))
+    return xor_canon(*ts)
 
 
 def canon(t: Term) -> Term:
     t = unsnap(t)
     if t.op == "bin" and t.args[0] == "BitXor":
-        return X(t.args[1], t.args[2])
+        return xor_canon(t)
     return t
+
+
+def _inverse_of(kind: str, key: Term, b) -> Optional[List[Term]]:
+    """E_k and D_k are mutually inverse permutations of the block space: D_k(E_k(x)) = x and E_k(D_k(x)) = x"""
+    x0 = b[0]
+    if x0.op == kind and x0.args[0] is key and all(x.op == kind and x.args[0] is key and x.args[1] is x0.args[1] and x.args[2] == i for i, x in enumerate(b)):
+        return list(x0.args[1])
+    return None
 
 
 def E(key: Term, blk: Sequence[Term]) -> List[Term]:
     b = tuple(canon(x) for x in blk)
+    inv = _inverse_of("aesD", key, b)
+    if inv is not None:
+        return inv
     return [mk("aesE", key, b, i) for i in range(16)]
 
 
 def D(key: Term, blk: Sequence[Term]) -> List[Term]:
     b = tuple(canon(x) for x in blk)
+    inv = _inverse_of("aesE", key, b)
+    if inv is not None:
+        return inv
     return [mk("aesD", key, b, i) for i in range(16)]
 
 
@@ -87,7 +74,7 @@ def hooks():
         def h(ex, fi, args, kwargs, st, node):
             items = ex.iter_items(args[1], st)
             if items is None or len(items) != 16:
-                raise Unsupported("AES.%s called with something that is not a block of 16 known items: %s" % (what, show(args[1], 4)))
+                raise Unsupported("AES.%s called with something that is not a block of 16 known items: %s" % (what, show(args[1], 9)[:700]))
             key = ex.obj(st, args[0]).attrs.get("#key", NONE)
             return ex.new_list(st, fn(key, items))
 
@@ -238,14 +225,14 @@ def _flat(ex, res, t) -> Optional[List[Term]]:
     return None
 
 
-def _cmp(got: Optional[List[Term]], want: List[Term]):
+def _cmp(got: Optional[List[Term]], want: List[Term], ref="the standard"):
     if got is None:
         return "result is not a byte string with known bytes"
     if len(got) != len(want):
-        return "result has %d bytes, the standard gives %d" % (len(got), len(want))
+        return "result has %d bytes, %s gives %d" % (len(got), ref, len(want))
     for i, (g, w) in enumerate(zip(got, want)):
         if g is not w:
-            return "byte %d is %s, the standard gives %s" % (i, show(g, 5)[:160], show(w, 5)[:160])
+            return "byte %d is %s, %s gives %s" % (i, show(g, 5)[:160], ref, show(w, 5)[:160])
     return None
 
 
